@@ -188,7 +188,9 @@ def shape_ok(col, entry, got, want_shape, detail, integer=False):
 
 
 def softmax_psets(A):
-    ps = [dict(k="init"), dict(k="uniform"), dict(k="scale", s=30.0)]
+    # "levels": the whole logit row is shifted by an observation-dependent offset of the order of +-300, so rows
+    # of one batch sit on very different levels (a per-row softmax does not care; anything batch-wide does)
+    ps = [dict(k="init"), dict(k="uniform"), dict(k="scale", s=30.0), dict(k="levels", s=300.0)]
     for j in sorted({0, A - 1}):
         ps.append(dict(k="bias", j=j, v=50.0))
         ps.append(dict(k="bias", j=j, v=-50.0))
@@ -208,6 +210,10 @@ def make_softmax(A, net_seed, ps):
         L.bias.value = jnp.full((A,), 0.75, dtype=jnp.float32)
     elif ps["k"] == "scale":
         L.kernel.value = L.kernel.value * ps["s"]
+    elif ps["k"] == "levels":
+        K = np.array(L.kernel.value)
+        K = K + ps["s"] * np.sign(K[:, :1] + 1e-6)  # the same large column added to every action's weights
+        L.kernel.value = jnp.asarray(K, dtype=jnp.float32)
     elif ps["k"] == "bias":
         b = np.zeros(A, np.float32)
         b[ps["j"]] = ps["v"]
@@ -232,6 +238,16 @@ def work_softmax(item, col):
             base = dict(A=A, net_seed=item["net_seed"], pset=ps, rank=rank, obs=np.asarray(obs))
             ktag = ("softmax", A, item["net_seed"], pi, rank, r)
             logits = np.asarray(pol.net(obs), dtype=np.float64)
+            # float32 logits of magnitude M carry a rounding error of ~eps32*M that passes straight into log-probabilities;
+            # for the large-offset parameter set the comparison allows for it (the other sets keep the strict policy)
+            slack = 16 * float(np.finfo(np.float32).eps) * float(np.max(np.abs(logits))) if ps["k"] == "levels" else 0.0
+
+            def close_(a, b):
+                if slack == 0.0:
+                    return num.close(a, b)
+                a, b = np.asarray(a, dtype=np.float64), np.asarray(b, dtype=np.float64)
+                return a.shape == b.shape and bool(np.all(np.isfinite(a))) and bool(np.all(np.abs(a - b) <= 1e-5 * np.maximum(1.0, np.abs(b)) + slack))
+
             lse = np.log(np.sum(np.exp(logits - logits.max(-1, keepdims=True)), -1, keepdims=True)) + logits.max(-1, keepdims=True)
             logp_ref = logits - lse
             p_ref = np.exp(logp_ref)
@@ -244,14 +260,14 @@ def work_softmax(item, col):
                 pr = np.asarray(pr, dtype=np.float64)
                 if np.any(pr < 0) or np.any(np.abs(pr.sum(-1) - 1.0) > 1e-5) or not np.all(np.isfinite(pr)):
                     col.violation(SIG.format("SoftmaxPolicy.__call__", K_NOTDIST), dict(base, probs=pr))
-                elif not num.close(pr, p_ref):
+                elif not close_(pr, p_ref):
                     col.violation(SIG.format("SoftmaxPolicy.__call__", K_VALUE), dict(base, probs=pr, ref=p_ref))
             # entropy
             ok, en = call(col, "SoftmaxPolicy.entropy", pol.entropy, obs, detail=base)
             col.tick(1, None if canonical else ktag + ("entropy",))
             if ok and shape_ok(col, "SoftmaxPolicy.entropy", en, bshape, base):
                 ref = -np.sum(np.where(p_ref > 0, p_ref * logp_ref, 0.0), -1)
-                if not num.close(en, ref):
+                if not close_(en, ref):
                     col.violation(SIG.format("SoftmaxPolicy.entropy", K_VALUE), dict(base, got=en, ref=ref))
             # log_probability of every action (constant patterns) and two rotating patterns
             pats = [("const", a) for a in range(A)]
@@ -270,7 +286,7 @@ def work_softmax(item, col):
                 nontriv = not canonical and bool(np.any(np.asarray(act) != np.argmax(logp_ref, -1)))
                 col.tick(1, ktag + ("logp", kind, a0) if nontriv else None)
                 if ok and shape_ok(col, "SoftmaxPolicy.log_probability", lp, bshape, d):
-                    if not num.close(lp, ref):
+                    if not close_(lp, ref):
                         col.violation(SIG.format("SoftmaxPolicy.log_probability", K_VALUE), dict(d, got=lp, ref=ref))
                     elif np.max(np.abs(ref)) > 20:
                         col.outcome("softmax_logp_cases_beyond_20_nats")
